@@ -280,6 +280,10 @@ func init() {
 				if n := &w.Nodes[i]; n.Kind == KProc && n.Custom == 0 && c.Tape.Choose(simrt.StGen, 5, 0) == 1 {
 					n.Prepend = []string{"nice -n 10", "env", "nohup"}[c.Tape.Choose(simrt.StGen, 3, 0)]
 				}
+				// a word with per-cent signs on the command line (printf formats, 100%)
+				if n := &w.Nodes[i]; n.Kind == KProc && n.Custom == 0 && n.JoinMod == "" && c.Tape.Choose(simrt.StGen, 5, 0) == 1 {
+					n.Note = []string{"100%", "%s_%d", "rate=5%v"}[c.Tape.Choose(simrt.StGen, 3, 0)]
+				}
 			}
 			c.Sample = sample(w)
 			ex := Eval(w)
@@ -538,6 +542,11 @@ func init() {
 				prof.Taggers = true
 			}
 			w := Generate(c.Tape, crashTierProfile(prof, c.Tier))
+			for i := range w.Nodes {
+				if n := &w.Nodes[i]; n.Kind == KProc && n.Custom == 0 && n.JoinMod == "" && c.Tape.Choose(simrt.StGen, 5, 0) == 1 {
+					n.Note = []string{"100%", "%s_%d", "rate=5%v"}[c.Tape.Choose(simrt.StGen, 3, 0)]
+				}
+			}
 			if mode != 1 && c.Tape.Choose(simrt.StGen, 4, 0) == 1 {
 				// a command that re-writes its input in place (an index update, sort -o):
 				// the input's bytes stay, its mtime becomes later than its audit file's
